@@ -1,6 +1,7 @@
 package main
 
 import (
+	"context"
 	"encoding/xml"
 	"fmt"
 	"io"
@@ -472,7 +473,79 @@ func emitPrincipalProps(o *Out, r *RNG) {
 	o.Emit("pf.prin", hx(principal)+" "+sxl(in), res)
 }
 
+// the discovery chain of the real clients against the real handlers, under a mount prefix and with segment names that
+// need escaping: current-user-principal -> home set -> collections must be exactly the backend's paths
+func emitDiscover(o *Out, r *RNG) {
+	mount := r.Pick([]string{"", "/dav", "/s d/v", "/é"})
+	principal := mount + "/" + r.Pick(owNames) + "/"
+	homeSet := principal + r.Pick(owNames) + "/"
+	var colls []string
+	for k := r.Range(0, 3); k > 0; k-- {
+		colls = append(colls, homeSet+r.Pick(owNames)+fmt.Sprint(k)+"/")
+	}
+	endpoint := "http://example.com" + (&url.URL{Path: mount + "/"}).EscapedPath()
+	for _, srv := range []string{"cal", "card"} {
+		res := guard(func() string {
+			var p, hs string
+			var found []string
+			var err error
+			ctx := context.Background()
+			if srv == "cal" {
+				b := &calBackend{principal: principal, homeSet: homeSet}
+				for _, c := range colls {
+					b.calendars = append(b.calendars, caldav.Calendar{Path: c, Name: "n"})
+				}
+				hc := &handlerClient{h: &caldav.Handler{Backend: b, Prefix: mount}}
+				c, _ := caldav.NewClient(hc, endpoint)
+				if p, err = c.FindCurrentUserPrincipal(ctx); err != nil {
+					return "principal-" + errStr(err)
+				}
+				if hs, err = c.FindCalendarHomeSet(ctx, p); err != nil {
+					return "homeset-" + errStr(err)
+				}
+				cals, err := c.FindCalendars(ctx, hs)
+				if err != nil {
+					return "collections-" + errStr(err)
+				}
+				for _, x := range cals {
+					found = append(found, hx(x.Path))
+				}
+			} else {
+				b := &cardBackend{principal: principal, homeSet: homeSet}
+				for _, c := range colls {
+					b.books = append(b.books, carddav.AddressBook{Path: c, Name: "n"})
+				}
+				hc := &handlerClient{h: &carddav.Handler{Backend: b, Prefix: mount}}
+				c, _ := carddav.NewClient(hc, endpoint)
+				if p, err = c.FindCurrentUserPrincipal(ctx); err != nil {
+					return "principal-" + errStr(err)
+				}
+				if hs, err = c.FindAddressBookHomeSet(ctx, p); err != nil {
+					return "homeset-" + errStr(err)
+				}
+				books, err := c.FindAddressBooks(ctx, hs)
+				if err != nil {
+					return "collections-" + errStr(err)
+				}
+				for _, x := range books {
+					found = append(found, hx(x.Path))
+				}
+			}
+			return hx(p) + " " + hx(hs) + " " + sxl(found)
+		})
+		var in []string
+		for _, c := range colls {
+			in = append(in, hx(c))
+		}
+		o.Stat("discover." + srv)
+		o.Emit("pf.discover", srv+" "+hx(principal)+" "+hx(homeSet)+" "+sxl(in), res)
+	}
+}
+
 func famPfScope(o *Out, r *RNG, thorough bool) {
+	for i := 0; i < 150; i++ {
+		emitDiscover(o, r)
+	}
 	for i := 0; i < 200; i++ {
 		emitPrincipalProps(o, r)
 	}
